@@ -366,11 +366,15 @@ theorem EndInv_step (s s' : Sys) (l : Label) (h : EndInv s) (hi : IdsInv s)
           · rename_i w hf
             obtain ⟨hw, hq⟩ := find_waiter hf
             have hwo : w.oid = oid := by simpa using hq
-            cases hs
-            subst hwo
-            exact EndInv_erase_complete s w _ _ _ h (by split <;> simp [oids_grantFirst]) (by intro m; nofun)
+            split at hs
+            · cases hs
+            · cases hs
+              subst hwo
+              exact EndInv_erase_complete s w _ _ _ h rfl (by intro m; nofun)
           · cases hs
-        · cases hs; exact EndInv_complete _ _ _ _ h (by intro m; nofun)
+        · split at hs
+          · cases hs
+          · cases hs; exact EndInv_complete _ _ _ _ h (by intro m; nofun)
         · cases hs
     · cases hs
   | recvReply oid =>
